@@ -378,9 +378,31 @@ STD_TRUSTED = [
 ]
 
 
+class CheckTimeout(BaseException):
+    pass
+
+
+def _arm_watchdog(tier):
+    """Global wall-clock limit of one check (VERIF_MAX_S; default 25 min quick, 90 min thorough):
+    a driver stuck in a non-terminating implementation call is interrupted and the check reports
+    the hang instead of never returning."""
+    import signal
+    limit = int(os.environ.get('VERIF_MAX_S', '1500' if tier == 'quick' else '5400'))
+
+    def on_alarm(signum, frame):
+        raise CheckTimeout('check exceeded %d s' % limit)
+    try:
+        signal.signal(signal.SIGALRM, on_alarm)
+        signal.alarm(limit)
+    except (ValueError, OSError):
+        pass
+    return limit
+
+
 def run_check(pid, tier, driver, replay=None):
     seed = int(os.environ.get('VERIF_SEED', '0') or 0)
     ctx = Ctx(pid, tier, seed)
+    _arm_watchdog(tier)
     t0 = time.time()
     exit_code = 0
     lines = []
@@ -403,11 +425,14 @@ def run_check(pid, tier, driver, replay=None):
                     driver.run(ctx)
             except CoqEvalError as ex:
                 ctx.disagree('coq-eval', None, str(ex))
+            except CheckTimeout as ex:
+                ctx.error('watchdog', '%s: the driver did not finish (a call into the implementation may not terminate)\n%s'
+                          % (ex, traceback.format_exc()[-2500:]))
             except Exception as ex:  # the harness cannot drive the implementation
                 ctx.error('driver', '%s: %s\n%s' % (type(ex).__name__, ex, traceback.format_exc()[-2500:]))
         attempt(1, 0)
         broken = (not proof['ok']) or ctx.disagreements or ctx.errors
-        if broken and not ctx.violations and not replay:
+        if broken and not ctx.violations and not replay and not any(e['group'] == 'watchdog' for e in ctx.errors):
             # escalate the search for a concrete failing input
             attempt(int(os.environ.get('VERIF_ESCALATE', '4')), 7919)
         if ctx.canaries and ctx.canaries_caught != ctx.canaries:
